@@ -186,6 +186,10 @@ class ModuleLevelError(Exception):
     """defined in the submitting script (shipped by value)"""
 
 
+class NotAnError(BaseException):
+    """a user-defined exception that does not derive from Exception (like SystemExit, KeyboardInterrupt, GeneratorExit)"""
+
+
 class WithAttr(Exception):
     def __init__(self, *args):
         super().__init__(*args)
@@ -202,7 +206,18 @@ def make_exc(rng, tag):
 
     nargs = rng.choice([0, 1, 1, 2, 3])
     args = tuple([tag] + [rng.choice([1, "two", None, (3, 4), 5.5]) for _ in range(nargs - 1)]) if nargs else ()
-    k = rng.choice(["builtin", "builtin", "stdlib", "stdlib", "script", "script_dynamic", "script_attr", "oserror", "keyerror", "nested_arg"])
+    k = rng.choice(["builtin", "builtin", "stdlib", "stdlib", "script", "script_dynamic", "script_attr", "oserror", "keyerror", "nested_arg", "base"])
+    if k == "base":
+        # exceptions outside the Exception branch of the hierarchy: sys.exit() inside a submitted function, a user-defined
+        # BaseException subclass, KeyboardInterrupt / GeneratorExit raised by the function itself
+        c = rng.randrange(4)
+        if c == 0:
+            return k, SystemExit(*args[:1])
+        if c == 1:
+            return k, NotAnError(*args)
+        if c == 2:
+            return k, KeyboardInterrupt(*args)
+        return k, GeneratorExit(*args)
     if k == "builtin":
         cls = rng.choice([ValueError, TypeError, RuntimeError, ZeroDivisionError, IndexError, AssertionError, NotImplementedError, ArithmeticError, LookupError])
         return k, cls(*args)
